@@ -5,6 +5,7 @@ Cases (JSON):
   {"kind": "canon", "conv": D, "theory": name, "dom": "nat"|"real"|"conj"|"disj", "t": term, "t2": term, "gen": label}
 D (conversion descriptor) ::= leaf name (string, see LEAVES) | ["rewr_conv", theorem, {"sym": bool, "conds": [index...]}]
   | ["auto_conv"] | ["real.combine_atom"] | ["real.norm_mult_monomials"]          (take all supplied conditions)
+  | ["replace_conv", index] | ["rewr_pt", index, {"sym": bool}]        (the equation is the supplied condition theorem)
   | [c, D] for c in top_conv bottom_conv top_sweep_conv abs_conv sub_conv repeat_conv assums_conv arg_conv arg1_conv
     fun_conv binop_conv comb_conv try_conv | ["argn_conv", n, D] | ["then_conv", D, D] | ["else_conv", D, D]
   | ["every_conv", D, ...]
@@ -312,6 +313,15 @@ def build_conv(d, conds):
             if not isinstance(d[1], str) or any((not isinstance(i, int)) or i < 0 or i >= len(conds) for i in idx):
                 raise CaseInvalid('rewr_conv descriptor')
             return conv.rewr_conv(d[1], sym=bool(opts.get('sym')), conds=[conds[i] for i in idx])
+        if tag in ('replace_conv', 'rewr_pt'):
+            if len(d) < 2 or not isinstance(d[1], int) or isinstance(d[1], bool) or not 0 <= d[1] < len(conds):
+                raise CaseInvalid(tag)
+            if not conds[d[1]].prop.is_equals():
+                raise CaseInvalid('%s needs an equation' % tag)
+            if tag == 'replace_conv':
+                return conv.replace_conv(conds[d[1]])
+            o = d[2] if len(d) > 2 and isinstance(d[2], dict) else {}
+            return conv.rewr_conv(conds[d[1]], sym=bool(o.get('sym')))
         if tag == 'auto_conv':
             return _K['auto'].auto_conv(list(conds))
         if tag == 'real.combine_atom':
@@ -368,7 +378,7 @@ def sig_label(d):
             leaves.append(x)
             return
         tag = x[0]
-        if tag == 'rewr_conv':
+        if tag in ('rewr_conv', 'rewr_pt'):
             leaves.append('rewr_conv')
             return
         if tag in TRAVERSAL and not outer:
@@ -486,7 +496,7 @@ def sem_check(lhs, rhs, hyps, seed, pure_lambda=False):
             return 'agree', 1
     # fun_upd tables
     sl = repr(rl)
-    if "'fun_upd'" in sl:
+    if "'fun_upd'" in sl or T == 'nat':
         vl, vr = L.fu_value(rl), L.fu_value(rr)
         if vl[0] == 'num' and vr[0] == 'num':
             if vl != vr:
@@ -990,7 +1000,8 @@ def rewrite_cases(world):
         hole_T0 = codec.jt_subst(gen.jterm_type(pat), tysig)
         # layers, inside-out
         mode = draw(st.sampled_from(['path', 'path', 'top', 'top', 'bottom', 'bottom', 'sweep', 'sweep', 'direct', 'sub',
-                                     'repeat', 'assums', 'combo']))
+                                     'repeat', 'assums', 'combo', 'replace', 'rewrpt']))
+        given_eq = mode in ('replace', 'rewrpt')      # the equation is a supplied theorem  inst = s  (an assumption)
         nlayers = 0 if mode == 'direct' else draw(st.integers(1, 3))
         kinds = []
         cur = hole_T0
@@ -1015,10 +1026,10 @@ def rewrite_cases(world):
         first_order = not _has_abs(pat)
         sigma = {}
         for n_, T_ in sorted({**cond_sv, **sv}.items()):
-            closed = (n_ in cond_sv) or not first_order or draw(st.integers(0, 3)) == 0
+            closed = (n_ in cond_sv) or not first_order or given_eq or draw(st.integers(0, 3)) == 0
             sigma[n_] = draw(gen.terms(opts, T_, () if closed else bound, draw(st.integers(0, 2))))
         inst = _subst_sv(pat, sigma, tysig)
-        if not first_order and draw(st.booleans()):
+        if not first_order and not given_eq and draw(st.booleans()):
             try:
                 inst = ref.to_jterm(ref.beta_norm(ref.from_jterm(inst)))
             except Exception:
@@ -1090,6 +1101,16 @@ def rewrite_cases(world):
         table = {}
         term = _rename_by_type(term, table)
         conds = [dict(c, prop=_rename_by_type(c['prop'], table)) for c in conds]
+        if given_eq:
+            other_side = draw(gen.terms(opts, hole_T0, (), draw(st.integers(0, 2))))
+            swap = draw(st.booleans()) and mode == 'rewrpt'
+            sides = (other_side, inst) if swap else (inst, other_side)
+            conds = [{'prop': _rename_by_type(eq(hole_T0, sides[0], sides[1]), table), 'how': 'assume'}]
+            leaf = ['replace_conv', 0] if mode == 'replace' else ['rewr_pt', 0, {'sym': swap}]
+            d = draw(st.sampled_from([['top_conv', leaf], ['top_sweep_conv', leaf], ['bottom_conv', leaf], ['try_conv', leaf]]))
+            if d[0] == 'top_conv' and json.dumps(sides[0]) in json.dumps(sides[1]):
+                d = ['top_sweep_conv', leaf]        # a = f a  would be unfolded for ever
+            return {'kind': 'conv', 'conv': d, 'theory': world, 't': term, 'conds': conds, 'gen': 'rewrite:' + mode}
         def TOP(r):
             # a rule whose left side is a bare variable matches its own result: top_conv would never end
             nm_, o_ = r[1], r[2]
